@@ -5,6 +5,7 @@ import DracoProofs.EbCountsIso
 import DracoProofs.EbIsoCheck
 import DracoProofs.EbCoverage
 import DracoProofs.EbConnExample
+import DracoProofs.EbCountsRun
 /-
   C09 for Edgebreaker, on the CORNER-TABLE models (DracoModel/EbConnectivity.lean `assignPoints`,
   DracoModel/EbEncoder.lean `computeNumberOfEncodedPoints`): closes, on the decoder's side, the gap of DracoProps/C09.lean
@@ -26,6 +27,9 @@ import DracoProofs.EbConnExample
     `computeNumberOfEncodedPoints_tbl`, `_create`, `_of_encode`); `= num_vertices − isolated` for ≤ 1 attribute.
   * `eb_encoded_points_eq_decoded`: the two counts are EQUAL under the isomorphism of the tables, the correspondence of
     the attribute vertices, H2, coverage and `hiso` (fans correspond: `CountsIso.fan_corr`).
+  * `eb_encoded_points_eq_decoded_of_run` / `_single_of_run`: the same with every ENCODER-side hypothesis (table invariants,
+    `hvcE`, `hiso`, `Coverage`) discharged from the successful `encodeConnectivity`; left: the connectivity link (`TVIso`, from
+    `ctIso`) and decoder-side facts (`APHyp`, hole flag ⇒ boundary, `AttVertIff`, `SeamFlagsSound`).
   * `eb_encoded_faces` (FACES, encoder side, unconditional): the number of faces the encoder reports,
     `num_faces − NumDegeneratedFaces`, IS the number of faces of `processed_connectivity_corners_` (one per traversal symbol /
     interior start face, i.e. what a decoder rebuilds); these faces are pairwise different and exactly the non-degenerate
@@ -191,6 +195,167 @@ example : (4 : Nat) = 4 :=
     (by unfold Coverage; decide +kernel) (by decide +kernel)
 
 end TetraExample
+
+open Draco.EbEnc.CountsIso Draco.EbEnc.EncCounts Draco.EbEnc.AttViews in
+/-- **C09, points, Edgebreaker, from the encoder's run** (more than one attribute): `eb_encoded_points_eq_decoded` with
+    EVERY hypothesis about the encoder's corner table discharged from the successful `encodeConnectivity` (`henc`):
+    the table is `CornerTable.create`'s (`encodeConnectivity_visited`); `Opposite` is an involution, a recorded left-most
+    corner is a corner of its vertex in a non-degenerate face (`ofTable_hvcE`, `create_vertexCorners_nondeg`: new loop
+    invariants of `ComputeVertexCorners`), a left-most corner with a left neighbour lies on a closed fan, every corner of a
+    non-degenerate face is reached from its vertex's left-most corner; `num_vertices − NumIsolatedVertices` is the number of
+    vertices with a left-most corner (`ofTable_hiso`); and COVERAGE is a theorem (`coverage_of_run`, from traversal
+    completeness `Coverage.encodeConnectivity_coverage`).  Left: the connectivity link `hiso` (from `ctIso`), and
+    decoder-side facts: `hdec` (`APHyp`: the decoder's table has fans, an unmarked vertex has a closed fan), `hhole` (a vertex
+    the decoder still marks as hole vertex is on the boundary), `hiff` (attribute vertices correspond), `h2` (seam flags sound). -/
+theorem eb_encoded_points_eq_decoded_of_run {ch : ConnChoices} {valence : Bool} {posFaces : Faces}
+    {acv : Array (Nat × Array Nat)} {conn : ConnEnc} (atts : Array Attribute) (used : Array AttConn) (nE : Nat)
+    (co : ConnOut) (n : Nat) (attsD : Array AttConn) (c2p : Array Nat) (nD tags : Nat) (ψ : Nat → Nat)
+    (hatts : atts.size > 1)
+    (hrunE : computeNumberOfEncodedPoints atts conn used = .ok nE)
+    (henc : encodeConnectivity ch valence posFaces acv = .ok conn)
+    (hne : attsD.isEmpty = false)
+    (hrunD : assignPoints co n attsD = .ok (c2p, nD, tags))
+    (hn : n = conn.processed.size)
+    (hiso : TVIso (baseViewD n co.c2v co.opp co.vc) conn.ct.view (phi conn.processed) ψ)
+    (hdec : APHyp n co)
+    (hhole : ∀ v, v < co.vc.size → co.vc[v]! ≠ inv → co.hole[v]! = true → ∃ k, iter (sRP co.opp) k co.vc[v]! = inv)
+    (hiff : AttVertIff n attsD used (phi conn.processed))
+    (h2 : SeamFlagsSound co attsD) : nE = nD :=
+  CountsIso.eb_encoded_points_eq_decoded_of_run atts used nE co n attsD c2p nD tags ψ hatts hrunE henc hne hrunD hn hiso hdec
+    hhole hiff h2
+
+open Draco.EbEnc.CountsIso Draco.EbEnc.EncCounts Draco.EbEnc.AttViews in
+/-- the position-only configuration (`num_attributes() ≤ 1`, no attribute corner table on the decoder's side): both sides
+    report their number of vertices in use; `hconn`: the decoder's `num_connectivity_verts` is the number of its vertices
+    that have a left-most corner -/
+theorem eb_encoded_points_eq_decoded_single_of_run {ch : ConnChoices} {valence : Bool} {posFaces : Faces}
+    {acv : Array (Nat × Array Nat)} {conn : ConnEnc} (atts : Array Attribute) (used : Array AttConn) (nE : Nat)
+    (co : ConnOut) (n : Nat) (attsD : Array AttConn) (c2p : Array Nat) (nD tags : Nat) (ψ : Nat → Nat)
+    (hatts : atts.size ≤ 1)
+    (hrunE : computeNumberOfEncodedPoints atts conn used = .ok nE)
+    (henc : encodeConnectivity ch valence posFaces acv = .ok conn)
+    (hne : attsD.isEmpty = true)
+    (hrunD : assignPoints co n attsD = .ok (c2p, nD, tags))
+    (hn : n = conn.processed.size)
+    (hiso : TVIso (baseViewD n co.c2v co.opp co.vc) conn.ct.view (phi conn.processed) ψ)
+    (hdec : APHyp n co)
+    (hhole : ∀ v, v < co.vc.size → co.vc[v]! ≠ inv → co.hole[v]! = true → ∃ k, iter (sRP co.opp) k co.vc[v]! = inv)
+    (hconn : co.numConnVerts = (usedVerts co.vc).length) : nE = nD :=
+  CountsIso.eb_encoded_points_eq_decoded_single_of_run atts used nE co n attsD c2p nD tags ψ hatts hrunE henc hne hrunD hn hiso
+    hdec hhole hconn
+
+section TriExample
+open Draco.EbEnc.CountsIso Draco.EbEnc.EncCounts Draco.EbEnc.AttViews Draco.EbEnc.ConnExample
+
+/-- one triangle, one attribute data (attribute 1, corner values 0 1 2) -/
+def triAcv : Array (Nat × Array Nat) := #[(1, #[0, 1, 2])]
+/-- the encoder's connectivity result (value of the closed term) -/
+def triConn : ConnEnc :=
+  match encodeConnectivity exCh.conn false #[(0, 1, 2)] triAcv with
+  | .ok c => c
+  | .error _ => default
+
+theorem triEncode : encodeConnectivity exCh.conn false #[(0, 1, 2)] triAcv = .ok triConn := by
+  have h : (match encodeConnectivity exCh.conn false #[(0, 1, 2)] triAcv with | .ok _ => true | .error _ => false) = true := by
+    decide +kernel
+  unfold triConn
+  split at h
+  · rename_i e he; rw [he]
+  · exact absurd h (by decide)
+
+/-- the decoder's attribute corner table of the triangle (`buildAttConn`, `C01Eb.AttViewsExample.exBuild1`) -/
+def triAttD : AttConn := ⟨#[true, true, true], #[true, true, true], #[0, 1, 2], #[0, 1, 2], true⟩
+
+theorem triRunE : computeNumberOfEncodedPoints #[default, default] triConn #[(triConn.atts[0]!).conn] = .ok 3 := by
+  have h : (match computeNumberOfEncodedPoints #[default, default] triConn #[(triConn.atts[0]!).conn] with
+      | .ok n => n == 3 | .error _ => false) = true := by decide +kernel
+  split at h
+  · rename_i n hn; rw [hn, eq_of_beq h]
+  · exact absurd h (by decide)
+
+theorem triRunD : assignPoints exCo 1 #[triAttD] = .ok (#[0, 1, 2], 3, 1048576) := by
+  have h : (match assignPoints exCo 1 #[triAttD] with
+      | .ok r => r == (#[0, 1, 2], 3, 1048576) | .error _ => false) = true := by decide +kernel
+  split at h
+  · rename_i r hr; rw [hr, eq_of_beq h]
+  · exact absurd h (by decide)
+
+theorem triAPHyp : APHyp 1 exCo := by
+  refine ⟨⟨⟨by decide, by decide, by decide, by decide⟩, by decide, ?_⟩, ?_, ?_⟩
+  · intro v hv
+    have hv' : v < 3 := hv
+    obtain rfl | rfl | rfl : v = 0 ∨ v = 1 ∨ v = 2 := by omega
+    all_goals decide
+  · intro c hc
+    have hc' : c < 3 := hc
+    obtain rfl | rfl | rfl : c = 0 ∨ c = 1 ∨ c = 2 := by omega
+    all_goals exact ⟨by decide, by decide, 0, by decide⟩
+  · intro v hv _ h
+    have hv' : v < 3 := hv
+    obtain rfl | rfl | rfl : v = 0 ∨ v = 1 ∨ v = 2 := by omega
+    all_goals exact absurd h (by decide)
+
+/-- non-vacuity of `eb_encoded_points_eq_decoded_of_run`: one triangle with a POSITION and one more attribute — the
+    encoder's run `triEncode` is the model's, the decoder's table `exCo` is what `connLoop` builds (`ConnExample.exConn`):
+    3 = 3 points -/
+example : (3 : Nat) = 3 :=
+  eb_encoded_points_eq_decoded_of_run #[default, default] #[(triConn.atts[0]!).conn] 3 exCo 1 #[triAttD] _ 3 _
+    (fun v => (#[0, 1, 2] : Array Nat)[v]!) (by decide) triRunE triEncode rfl triRunD (by decide +kernel)
+    (tvIsoCheck_sound _ _ _ #[0, 1, 2] #[0, 1, 2] #[0, 1, 2] (by decide +kernel)) triAPHyp
+    (by
+      intro v hv _ _
+      have hv' : v < 3 := hv
+      obtain rfl | rfl | rfl : v = 0 ∨ v = 1 ∨ v = 2 := by omega
+      all_goals exact ⟨1, by decide +kernel⟩)
+    (by
+      refine ⟨rfl, fun i hi c c' hc hc' => ?_⟩
+      have hi' : i < 1 := hi
+      obtain rfl : i = 0 := by omega
+      have hc3 : c < 3 := hc
+      have hc3' : c' < 3 := hc'
+      obtain rfl | rfl | rfl : c = 0 ∨ c = 1 ∨ c = 2 := by omega
+      all_goals (obtain rfl | rfl | rfl : c' = 0 ∨ c' = 1 ∨ c' = 2 := by omega) <;> decide +kernel)
+    (by
+      intro v hv
+      have hv' : v < 3 := hv
+      obtain rfl | rfl | rfl : v = 0 ∨ v = 1 ∨ v = 2 := by omega
+      all_goals decide +kernel)
+
+
+/-- the position-only run on the triangle -/
+def tri0Conn : ConnEnc :=
+  match encodeConnectivity exCh.conn false #[(0, 1, 2)] #[] with
+  | .ok c => c
+  | .error _ => default
+
+theorem tri0Encode : encodeConnectivity exCh.conn false #[(0, 1, 2)] #[] = .ok tri0Conn := by
+  have h : (match encodeConnectivity exCh.conn false #[(0, 1, 2)] #[] with | .ok _ => true | .error _ => false) = true := by
+    decide +kernel
+  unfold tri0Conn
+  split at h
+  · rename_i e he; rw [he]
+  · exact absurd h (by decide)
+
+theorem tri0RunE : computeNumberOfEncodedPoints #[default] tri0Conn #[] = .ok 3 := by
+  have h : (match computeNumberOfEncodedPoints #[default] tri0Conn #[] with
+      | .ok n => n == 3 | .error _ => false) = true := by decide +kernel
+  split at h
+  · rename_i n hn; rw [hn, eq_of_beq h]
+  · exact absurd h (by decide)
+
+/-- non-vacuity of `eb_encoded_points_eq_decoded_single_of_run`: the triangle with its POSITION attribute only -/
+example : (3 : Nat) = 3 :=
+  eb_encoded_points_eq_decoded_single_of_run #[default] #[] 3 exCo 1 #[] _ 3 _
+    (fun v => (#[0, 1, 2] : Array Nat)[v]!) (by decide) tri0RunE tri0Encode rfl exAssignPts (by decide +kernel)
+    (tvIsoCheck_sound _ _ _ #[0, 1, 2] #[0, 1, 2] #[0, 1, 2] (by decide +kernel)) triAPHyp
+    (by
+      intro v hv _ _
+      have hv' : v < 3 := hv
+      obtain rfl | rfl | rfl : v = 0 ∨ v = 1 ∨ v = 2 := by omega
+      all_goals exact ⟨1, by decide +kernel⟩)
+    (by decide +kernel)
+
+end TriExample
 
 open Draco.EbEnc.EncCounts in
 /-- **C09, faces, Edgebreaker (encoder side), unconditional.**  After a successful `encodeEdgebreaker` the reported
